@@ -224,6 +224,48 @@ def str_and_char_consts(db, body):
     return strs, chars
 
 
+JOIN_CALLS = {"join", "push", "push_str", "write_str", "write_char", "concat", "connect"}
+
+
+def writer_joiners(db, body):
+    """literal separators a list writer emits outside its format templates: constants handed to join / push / push_str /
+    write_str / write_char inside `body` and its nested closures (any spelling of `xs.join(",")` or a push loop)"""
+    from .rules.c10 import _const_str_arg
+    out = []
+    for d, b in db.bodies.items():
+        if d != body.defp and not d.startswith(body.defp + "::"):
+            continue
+        for bb, t in b.calls():
+            c = t["callee"]
+            if not c or c["name"] not in JOIN_CALLS:
+                continue
+            for a in (t["args"] or [])[1:]:
+                v = None
+                if a.get("k") == "const":
+                    v = a.get("str") or a.get("pstr") or a.get("char")
+                if v is None:
+                    v = _const_str_arg(b, a)
+                if v is None and a.get("k") in ("copy", "move"):
+                    # promoted &str / char constant assigned to a temporary
+                    l = a["place"]["l"]
+                    for blk in b.blocks:
+                        for st in blk["stmts"]:
+                            if st["k"] == "assign" and st["place"]["l"] == l and not st["place"]["p"]:
+                                op = st["rv"].get("op") or {}
+                                v = v or op.get("pstr") or op.get("char") or op.get("str")
+                if v is not None:
+                    out.append(v)
+    return out
+
+
+def list_joiner(db, body, idiom):
+    """the joiner of a list-valued format argument: from the source idiom if recognised, else from the MIR of the writer"""
+    if idiom and idiom.startswith("join:"):
+        return idiom.split(":", 1)[1]
+    js = set(writer_joiners(db, body))
+    return js.pop() if len(js) == 1 else None
+
+
 # ------------------------------------------------------------------------------------------ MIR-side argument resolution
 
 def _self_field_places(t):
